@@ -203,6 +203,10 @@ class Replayer:
             tr.reorder_to(list(a[1]))
         elif op == 'sift':
             tr.sift()
+        elif op == 'pairs':
+            tr.pairs({a[1]: a[2]})
+        elif op == 'cube':
+            self.put(a[1], tr.cube({a[2]: a[3], a[4]: a[5]}))
         elif op == 'add_var':
             tr.add_var(a[1])
         elif op == 'undeclare':
